@@ -31,7 +31,7 @@ def _same_array(np, a, b, is_da):
 
 
 class DatasetOps(Contract):
-    """BOUNDED STAND-IN ONLY (never counted as proved).  For a Dataset with variables a(x), b(x, y), c(y) and a 0-d s -- so
+    """BOUNDED STAND-IN ONLY (never counted as proved).  For a Dataset with variables a(x), b(x, y), c(y), an integer i(x) and a 0-d s -- so
     that some variables lack the operated dimension x -- every listed Dataset operation gives, for each variable that has
     x, exactly what the corresponding DimArray operation gives on that variable, leaves the others as they were, returns a
     Dataset satisfying the shared-axes rule (every variable's axis IS the dataset's axis object) and carries the
@@ -73,9 +73,10 @@ class DatasetOps(Contract):
             b = DimArray(np.array(env["data"]["b"], dtype=float), axes=[("x", X.copy()), ("y", Y.copy())])
             c = DimArray(np.array(env["data"]["c"], dtype=float), axes=[("y", Y.copy())])
             s = DimArray(np.array(7.5))
-            for v in (a, b, c, s):
+            i = DimArray(np.arange(len(X)) * 3 + 1, axes=[("x", X.copy())])          # an INTEGER variable (results that need floats must widen)
+            for v in (a, b, c, s, i):
                 v.attrs.update(VAR_ATTRS)
-            return {"a": a, "b": b, "c": c, "s": s}
+            return {"a": a, "b": b, "c": c, "s": s, "i": i}
         ds = Dataset()
         for k, v in variables().items():
             ds[k] = v
@@ -93,7 +94,7 @@ class DatasetOps(Contract):
         lab = X[p]
         q = [int(t) % n for t in np.asarray(env["q"])]
         new = np.asarray(env["new"], dtype=float)
-        has_x = ("a", "b")
+        has_x = ("a", "b", "i")
         expect = dict(ref)
         if op == "take-label":
             out = ds.take(indices=lab, axis="x")
